@@ -58,6 +58,9 @@ type RCaseR struct {
 	Spec   string   `json:"spec,omitempty"`  // kind struct
 	Note   string   `json:"note,omitempty"`
 	Flip   string   `json:"flip,omitempty"` // "dir" | "file": what <ruletmp>/flip is made into before the case runs
+	// Raw, when set, is the line as given to flags.Parse (Tokens are what shellquote.Split makes of it): text as a rule
+	// file holds it, with bytes around and between the arguments that a shell does not treat as separators
+	Raw string `json:"raw,omitempty"`
 }
 
 // applyFlip makes <ruletmp>/flip a directory or a regular file: the same path name changes kind
@@ -279,6 +282,9 @@ func runRImpl(c RCaseR) (o rObs) {
 	switch c.Kind {
 	case "line":
 		o.Line = shellquote.Join(c.Tokens...)
+		if c.Raw != "" {
+			o.Line = c.Raw
+		}
 		if back, err := shellquote.Split(o.Line); err != nil || len(back) != len(c.Tokens) {
 			o.NoTok = true
 			return
@@ -1338,6 +1344,40 @@ func fieldBoundaryCases() []RCaseR {
 }
 
 // genRuleLine builds a rule line (tokens + intent).
+// rawLineCases: generated lines with bytes a shell does not split on (CR, FF, VT, NEL, NBSP, line and paragraph
+// separators, ideographic space, a byte order mark, a NUL) before the first argument, after the last one, and between two.
+// The arguments are what shellquote.Split makes of the text; nothing may be trimmed away or added.
+func rawLineCases(rng *rand.Rand, n int) []RCaseR {
+	decos := []string{"\r", "\f", "\v", "\u0085", "\u00a0", "\u2028", "\u2029", "\u3000", "\u1680", "\u2003", "\ufeff", "\x00", "\r\n", " \r", "\t\f"}
+	var out []RCaseR
+	for len(out) < n {
+		base := genRuleLine(rng, true)
+		line := shellquote.Join(base.Tokens...)
+		d := decos[rng.Intn(len(decos))]
+		var raw string
+		switch rng.Intn(4) {
+		case 0:
+			raw = line + d
+		case 1:
+			raw = d + line
+		case 2:
+			raw = d + line + d
+		default:
+			i := strings.IndexByte(line, ' ')
+			if i < 0 {
+				continue
+			}
+			raw = line[:i] + d + line[i:]
+		}
+		toks, err := shellquote.Split(raw)
+		if err != nil {
+			continue
+		}
+		out = append(out, RCaseR{Kind: "line", Note: "raw-line", Raw: raw, Tokens: toks})
+	}
+	return out
+}
+
 func genRuleLine(rng *rand.Rand, wantValid bool) RCaseR {
 	c := RCaseR{Kind: "line", Valid: true}
 	add := func(oc Occ) {
@@ -2005,6 +2045,11 @@ func ruleFamily(ctx *Ctx) error {
 	if ctx.Prop == "C13" {
 		for _, c := range degenerateStructCases() {
 			run(c, "degenerate-struct")
+		}
+	}
+	if ctx.Prop == "C14" || ctx.Prop == "C13" {
+		for _, c := range rawLineCases(ctx.Rng, ctx.N(400, 6000)) {
+			run(c, "raw-line")
 		}
 	}
 	n := ctx.N(6000, 150000)
